@@ -407,6 +407,8 @@ pub trait WorldOps {
     /// Execute one concrete step inside catch_unwind; returns observed events.
     fn exec(&mut self, r: &RStep) -> Vec<Ev>;
     fn snapshot(&mut self, slot: usize) -> Snap;
+    /// move the vector object of `slot` to an offset where its element storage is aligned
+    fn realign(&mut self, slot: usize);
     /// tags of the extracted-value pool
     fn pool_tags(&self) -> Vec<u64>;
     /// diagnostic text of the last step (which view check failed)
